@@ -37,6 +37,11 @@ from py_gql.execution.runtime import BlockingRuntime
 
 from . import sched
 
+import warnings
+
+# an early failure legitimately leaves sibling coroutines un-awaited (lazy coroutines)
+warnings.filterwarnings("ignore", category=RuntimeWarning, message="coroutine .* was never awaited")
+
 CONFIGS = ["bexec", "brt", "aio", "pool"]
 MODES = ["S", "P", "C"]
 SHAPES = {  # shape name -> (GraphQL type, non-null?, kind)
@@ -268,21 +273,31 @@ def _label(lb):
     return [[_seg(x) for x in lb[0]], lb[1]]
 
 
+class _BadData(Exception):
+    pass
+
+
 def _data(v):
     """GraphQL data -> JSON form with numeric keys (ordered pairs)"""
-    if v is None or isinstance(v, int):
+    if v is None or (isinstance(v, int) and not isinstance(v, bool)):
         return v
     if isinstance(v, list):
         return {"l": [_data(x) for x in v]}
-    return {"o": [[_seg(k), _data(x)] for k, x in v.items()]}
+    if isinstance(v, dict):
+        return {"o": [[_seg(k), _data(x)] for k, x in v.items()]}
+    raise _BadData(type(v).__name__)  # e.g. a Future / coroutine leaked into the response
 
 
 def _result_obs(res):
+    try:
+        data = _data(res.data)
+    except _BadData as e:
+        return {"fail_other": "BadData", "msg": "response data contains a %s" % e}
     errs = []
     for e in res.errors:
         kind = "nn" if "is not nullable" in e.message else ("res" if e.message == "resolver error" else "other:" + e.message[:80])
         errs.append([[_seg(x) for x in (e.path or [])], kind])
-    return {"data": _data(res.data), "errors": errs}
+    return {"data": data, "errors": errs}
 
 
 def _finish_obs(ctl, state, first, schedule, extra=None):
